@@ -1217,6 +1217,7 @@ func Main(prop string) {
 	seed := vh.SeedFromEnv()
 	rule := "structured blank-node graphs (cycles, cliques, stars, paths, disjoint copies, random sparse digraphs, joined shapes; decorated with self loops, blank/IRI graph names, literal/IRI tails, exotic ground quads; <= 12 blank nodes) x hash (sha256, sha384, 32-bit and 8-bit truncations to provoke collisions) x 8..72 iteration orders; W3C vectors; non-trivial = at least two blank nodes (datasets), every vector"
 	rep := vh.NewReport(prop, *tier, seed, rule)
+	rep.Cases = []vh.Case{} // never null in the JSON report
 	h := &harness{prop: prop, r: vh.NewRng(seed), rep: rep, drv: vh.Driver{Path: *driver}}
 	fs, err := vh.LoadFindings(*findings)
 	if err != nil {
@@ -1288,6 +1289,22 @@ func Main(prop string) {
 		}
 		h.shaTest(shaN * *scale)
 		h.litCases(400**scale, *tier == "thorough")
+	}
+	// corpus: datasets that reach the two work limits (an error, never an answer), and near misses
+	{
+		twoStars := func(k int) shape {
+			a := star(k, exP, true)
+			return shape{name: "corpus:2xstar", n: 2 * k, qs: append(append([]vh.GQuad{}, a.qs...), a.shift(k).qs...)}
+		}
+		for _, s := range []shape{twoStars(9), twoStars(8), twoStars(7), cycle(520, exP), cycle(505, exP), clique(7, exP, false)} {
+			if strings.HasPrefix(s.name, "corpus") == false {
+				s.name = "corpus:" + s.name
+			}
+			if *tier != "thorough" && (s.name == "corpus:clique" || (s.name == "corpus:cycle" && s.n == 505)) {
+				continue // the near misses are expensive for the model; thorough tier only
+			}
+			h.checkDataset(s.name, "sha256", fromG(s.qs, func(i int) string { return fmt.Sprintf("e%d", i) }), 4)
+		}
 	}
 	for i := 0; i < n; i++ {
 		mn := maxNodes
